@@ -285,6 +285,19 @@ Proof.
   pose proof (rt_all (depth t) t (le_n _) Hw) as E. unfold RT, md_lines in E. rewrite E. apply render_lines_bare.
 Qed.
 
+(* a whole document of several blocks *)
+Theorem fragment_seq_round_trip ts :
+  seq_ok_b ts = true -> forallb wf_b ts = true ->
+  render_md (mkMopts false) None (fst (fst (parse_lines cfg_markdown (text_of (join_blank (map spell ts)))))) = concat (text_of (join_blank (map spell ts))).
+Proof.
+  intros Hs Hw. rewrite fragment_seq_document_markdown by assumption.
+  unfold render_md. cbn [is_block block_lines].
+  assert (Hne : ts <> []) by (destruct ts; [discriminate|discriminate]).
+  assert (Hch : Forall RT ts).
+  { apply Forall_forall. intros x Hx. rewrite forallb_forall in Hw. apply (rt_all (depth x) x (le_n _) (Hw x Hx)). }
+  rewrite (rt_seq ts Hch Hne). apply render_lines_bare.
+Qed.
+
 (* ... and from ONE string, as MarkdownRenderer().render(Document(text)) *)
 Theorem fragment_round_trip_text t :
   wf_b t = true -> one_string_ok t = true ->
